@@ -113,6 +113,28 @@ fn want_prefixes(scope: &Scope) -> BTreeSet<(String, String)> {
     scope.iter().filter(|(p, u)| !u.is_empty() && p.as_str() != "xml" && p.as_str() != "xmlns").map(|(p, u)| (p.clone(), u.clone())).collect()
 }
 
+
+/// the bindings that must be listed once element `id` has ended: those of its parent (none at top level)
+fn prefixes_after_end(o: &Oracle, id: usize) -> BTreeSet<(String, String)> {
+    match o.r.elems[id].parent {
+        Some(p) => want_prefixes(&o.scopes[p]),
+        None => BTreeSet::new(),
+    }
+}
+
+fn listed<'x>(it: impl Iterator<Item = (PrefixDeclaration<'x>, quick_xml::name::Namespace<'x>)>) -> BTreeSet<(String, String)> {
+    it.map(|(p, ns)| {
+        (
+            match p {
+                PrefixDeclaration::Default => String::new(),
+                PrefixDeclaration::Named(n) => String::from_utf8_lossy(n).into_owned(),
+            },
+            String::from_utf8_lossy(ns.as_ref()).into_owned(),
+        )
+    })
+    .collect()
+}
+
 struct Oracle<'a> {
     r: &'a Rendered,
     scopes: Vec<Scope>,
@@ -401,6 +423,15 @@ pub fn check(c: &Case) -> Verdict {
                             if let Err(m) = res {
                                 return Verdict::fail(format!("skipping <{}> failed: {} | doc {:?}", name, m, B::show(&data)));
                             }
+                            // the call consumed the end tag: the element HAS ended, its declarations (and those of
+                            // anything inside it) no longer apply - also before the next read
+                            {
+                                let got_p = listed($r.prefixes());
+                                let want_p = prefixes_after_end(&o, id);
+                                if got_p != want_p {
+                                    return Verdict::fail(format!("directly after skipping <{}> (element #{}) prefixes() lists {:?}, expected {:?} | doc {:?}", name, id, got_p, want_p, B::show(&data)));
+                                }
+                            }
                             o.skips += 1;
                             let d = decls_of(&rendered.elems[id]);
                             if !d.is_empty() {
@@ -437,6 +468,13 @@ pub fn check(c: &Case) -> Verdict {
                         let res: Result<(), String> = if action == 3 { $skip_text } else { $skip };
                         if let Err(m) = res {
                             return Verdict::fail(format!("skipping the rest of <{}> failed: {} | doc {:?}", name, m, B::show(&data)));
+                        }
+                        {
+                            let got_p = listed($r.prefixes());
+                            let want_p = prefixes_after_end(&o, id);
+                            if got_p != want_p {
+                                return Verdict::fail(format!("directly after skipping the rest of <{}> (element #{}) prefixes() lists {:?}, expected {:?} | doc {:?}", name, id, got_p, want_p, B::show(&data)));
+                            }
                         }
                         o.skips += 1;
                         o.mid_skips += 1;
@@ -632,8 +670,140 @@ pub fn check_deep(c: &DeepCase) -> Verdict {
     Verdict::pass(true).class(if c.depth > 65536 { "deeper-than-65536" } else if c.depth > 255 { "deeper-than-255" } else { "shallow-chain" })
 }
 
+
+// ---------------------------------------------------------------------------------------------
+// end tags that close nothing, allowed by the configuration (allow_unmatched_ends): the read is
+// error-free, so the statement applies - such a tag ends no scope; the reserved prefixes stay
+// bound, later declarations work, the listing agrees
+
+#[derive(Clone, Debug, Serialize, Deserialize, PartialEq)]
+pub struct StrayCase {
+    pub doc: Doc,
+    /// names of the stray end tags in front of the document, between it and the probe element, after
+    pub before: Vec<String>,
+    pub between: Vec<String>,
+    pub after: Vec<String>,
+    /// 0 slice, 1 buffered, 2 async
+    pub source: u8,
+}
+
+pub fn check_stray(c: &StrayCase) -> Verdict {
+    let rendered = render(&c.doc);
+    let mut data: Vec<u8> = vec![];
+    for n in &c.before {
+        data.extend_from_slice(format!("</{}>", n).as_bytes());
+    }
+    data.extend_from_slice(&rendered.text);
+    for n in &c.between {
+        data.extend_from_slice(format!("</{}>", n).as_bytes());
+    }
+    data.extend_from_slice(b"<zz:probe xml:lang='en' zz:a='1' xmlns:zz='urn:probe' a='2'/>");
+    for n in &c.after {
+        data.extend_from_slice(format!("</{}>", n).as_bytes());
+    }
+    let cfg = ALLOW_UNMATCHED | CHECK_END_NAMES | TRIM_NAMES;
+    let bound = 2 * data.len() + 8;
+    let mut depth = 0i64;
+    let mut probe_seen = false;
+    let mut strays = 0;
+    macro_rules! drive {
+        ($r:ident, $read:expr) => {{
+            for call in 0..=bound {
+                if call == bound {
+                    return Verdict::fail("no Eof within the call bound");
+                }
+                let (res, ev) = match $read {
+                    Ok(x) => x,
+                    Err(e) => return Verdict::fail(format!("read error {:?} although unmatched end tags are allowed | doc {:?}", e, B::show(&data))),
+                };
+                // the listing can always be taken, whichever way (collect() asks for the size hint)
+                let (lo, hi) = $r.prefixes().size_hint();
+                let all = listed($r.prefixes().collect::<Vec<_>>().into_iter());
+                if lo > all.len() || hi.map_or(false, |h| h < all.len()) {
+                    return Verdict::fail(format!("prefixes().size_hint() = ({}, {:?}) but {} bindings are listed | doc {:?}", lo, hi, all.len(), B::show(&data)));
+                }
+                match &ev {
+                    Event::Eof => {
+                        if !all.is_empty() {
+                            return Verdict::fail(format!("at Eof prefixes() still lists {:?} | doc {:?}", all, B::show(&data)));
+                        }
+                        break;
+                    }
+                    Event::Start(_) => depth += 1,
+                    Event::End(e) => {
+                        if depth == 0 {
+                            // closes nothing: judged in the outermost scope, where only xml / xmlns are bound
+                            strays += 1;
+                            let name = String::from_utf8_lossy(e.name().as_ref()).into_owned();
+                            let want = match name.split_once(':') {
+                                Some(("xml", _)) => Res::Bound(XML_NS.into()),
+                                Some(("xmlns", _)) => Res::Bound(XMLNS_NS.into()),
+                                Some((p, _)) => Res::Unknown(p.to_string()),
+                                None => Res::Unbound,
+                            };
+                            let direct = got_res(&$r.resolve_element(e.name()).0);
+                            if got_res(&res) != want || direct != want {
+                                return Verdict::fail(format!("end tag </{}> that closes nothing resolves to {:?} / {:?}, expected {:?} | doc {:?}", name, got_res(&res), direct, want, B::show(&data)));
+                            }
+                            if !all.is_empty() {
+                                return Verdict::fail(format!("at the end tag </{}> that closes nothing prefixes() lists {:?} | doc {:?}", name, all, B::show(&data)));
+                            }
+                        } else {
+                            depth -= 1;
+                        }
+                    }
+                    Event::Empty(e) if e.name().as_ref() == b"zz:probe" => {
+                        probe_seen = true;
+                        let got = (got_res(&res), got_res(&$r.resolve_attribute(QName(b"xml:lang")).0), got_res(&$r.resolve_attribute(QName(b"zz:a")).0), got_res(&$r.resolve_attribute(QName(b"a")).0), got_res(&$r.resolve_element(QName(b"x")).0), got_res(&$r.resolve_element(QName(b"p:x")).0));
+                        let want = (Res::Bound("urn:probe".into()), Res::Bound(XML_NS.into()), Res::Bound("urn:probe".into()), Res::Unbound, Res::Unbound, Res::Unknown("p".into()));
+                        if got != want {
+                            return Verdict::fail(format!("at the probe element after {} end tag(s) that close nothing: (element, xml:lang, zz:a, a, x, p:x) resolve to {:?}, expected {:?} | doc {:?}", strays, got, want, B::show(&data)));
+                        }
+                        let want_p: BTreeSet<(String, String)> = [("zz".to_string(), "urn:probe".to_string())].into_iter().collect();
+                        if all != want_p {
+                            return Verdict::fail(format!("at the probe element prefixes() lists {:?}, expected {:?} | doc {:?}", all, want_p, B::show(&data)));
+                        }
+                    }
+                    _ => {}
+                }
+            }
+        }};
+    }
+    let cuts = crate::sources::cuts_fixed(3, data.len());
+    match c.source {
+        0 => {
+            let mut r = NsReader::from_reader(&data[..]);
+            apply_cfg(r.config_mut(), cfg);
+            drive!(r, r.read_resolved_event().map(|(res, e)| (res_back(own_res(&res)), e)));
+        }
+        1 => {
+            let mut r = NsReader::from_reader(ChunkedBufRead::new(&data, cuts));
+            apply_cfg(r.config_mut(), cfg);
+            let mut buf = Vec::new();
+            drive!(r, {
+                buf.clear();
+                r.read_resolved_event_into(&mut buf).map(|(res, e)| (own_res(&res), e.into_owned())).map(|(res, e)| (res_back(res), e))
+            });
+        }
+        _ => {
+            let mut r = NsReader::from_reader(ChunkedAsync::new(&data, cuts, vec![1, 0, 1]));
+            apply_cfg(r.config_mut(), cfg);
+            let mut buf = Vec::new();
+            drive!(r, {
+                buf.clear();
+                block_on(r.read_resolved_event_into_async(&mut buf)).map(|(res, e)| (own_res(&res), e.into_owned())).map(|(res, e)| (res_back(res), e))
+            });
+        }
+    }
+    if !probe_seen {
+        return Verdict::fail(format!("the probe element was not reported | doc {:?}", B::show(&data)));
+    }
+    Verdict::pass(strays > 0).class_if(!c.before.is_empty(), "stray-end-tag-before-the-first-element").class_if(strays >= 2, ">=2-stray-end-tags").class(["slice", "buffered", "async"][c.source.min(2) as usize])
+}
+
 fn run(ctx: &Ctx) {
     ctx.run_regress::<Case, _>(check);
+    ctx.run_regress::<StrayCase, _>(check_stray);
     let depths: Vec<u32> = vec![1, 2, 31, 32, 33, 127, 128, 129, 255, 256, 257, 1000, 32767, 32768, 32769, 65535, 65536, 65537, 70001, ctx.tier.pick(100_000, 300_000)];
     ctx.run_indexed("very-deep-chains", depths.len() as u64 * 4, |i| Some(DeepCase { depth: depths[(i / 4) as usize], redeclare: [0u32, 1, 7, 256][(i % 4) as usize] }), check_deep);
     let p = DocParams::namespaces();
@@ -723,9 +893,17 @@ fn run(ctx: &Ctx) {
     );
     let strat = move || Box::new((doc_strategy(&p), prop::collection::vec(0u8..8, 0..60), 0u8..3, 0u8..6, any::<bool>()).prop_map(|(doc, choices, source, piece, expand_empty)| Case { doc, choices, source, piece, expand_empty }));
     ctx.run_proptest_with("documents-x-random-histories", ctx.tier.pick(500_000, 5_000_000), strat, check);
+    let p2 = DocParams::namespaces();
+    let stray_name = || prop::sample::select(vec!["a", "p:a", "q:b", "xml:a", "zz:probe", "r", "i:x", "xmlns:a"]).prop_map(|s| s.to_string());
+    let stray = move || Box::new((doc_strategy(&p2), prop::collection::vec(stray_name(), 0..3), prop::collection::vec(stray_name(), 0..3), prop::collection::vec(stray_name(), 0..2), 0u8..3).prop_map(|(doc, before, between, after, source)| StrayCase { doc, before, between, after, source }));
+    ctx.run_proptest_with("end-tags-that-close-nothing-around-documents", ctx.tier.pick(200_000, 2_000_000), stray, check_stray);
 }
 
 fn replay(_stage: &str, case: &Value) -> Result<Verdict, String> {
+    if case.get("between").is_some() {
+        let c: StrayCase = serde_json::from_value(case.clone()).map_err(|e| e.to_string())?;
+        return Ok(check_stray(&c));
+    }
     if case.get("depth").is_some() {
         let c: DeepCase = serde_json::from_value(case.clone()).map_err(|e| e.to_string())?;
         return Ok(check_deep(&c));
